@@ -9,7 +9,7 @@ PROPS = {
     "C01": dict(
         title="FFT64 negacyclic product is exact within the documented precision budget",
         module="SpqProofs.Properties.C01",
-        extra_modules=["SpqProofs.Properties.Closed", "SpqProofs.Properties.C01Err", "SpqProofs.Properties.ErrWitness"],
+        extra_modules=["SpqProofs.Properties.Closed", "SpqProofs.Properties.C01Err", "SpqProofs.Properties.ErrWitness", "SpqProofs.Properties.BridgeFft"],
         streams=dict(quick=[("md_model", "plain"), ("md_prod", "plain"), ("md_prog", "plain"), ("md_vmp", "plain"), ("ff_tables", "plain"), ("huge_span", "plain")],
                      thorough=[("md_model", "plain"), ("md_prod", "plain"), ("md_prog", "plain"), ("md_vmp", "plain"), ("ff_tables", "plain"), ("huge_span", "plain")]),
         proved="exact-arithmetic part (product_exact_arith, rows_zero) on the module-level model instantiated with a commutative ring: "
@@ -39,7 +39,7 @@ PROPS = {
     "C02": dict(
         title="Vector-matrix product (VMP) equals the naive polynomial product for all shapes",
         module="SpqProofs.Properties.C02",
-        extra_modules=["SpqProofs.Properties.Closed", "SpqProofs.Properties.C02Err", "SpqProofs.Properties.ErrWitness"],
+        extra_modules=["SpqProofs.Properties.Closed", "SpqProofs.Properties.C02Err", "SpqProofs.Properties.ErrWitness", "SpqProofs.Properties.BridgeFft"],
         streams=dict(quick=[("md_model", "plain"), ("md_vmp", "plain"), ("md_prog", "plain"), ("ff_tables", "plain")],
                      thorough=[("md_model", "plain"), ("md_vmp", "plain"), ("md_prog", "plain"), ("ff_tables", "plain")]),
         proved="vmp_layout (layout_inverse): for ANY fft/fromZnx, in exact arithmetic, vmp_apply_dft_to_dft(vmp_prepare(M)) column j < min(ncols, rsz), "
@@ -93,10 +93,10 @@ PROPS = {
         title="Base-2^k normalization yields the unique balanced digit expansion",
         module="SpqProofs.Properties.C05",
         variants={"plain": None, "asan": None},
-        extra_modules=["SpqProofs.Properties.SrcNorm"],
+        extra_modules=["SpqProofs.Properties.SrcNorm", "SpqProofs.Properties.SrcVecNorm"],
         gen=["csrc"],   # tools/c2lean.py: spqlios/coeffs/coeffs_arithmetic.c -> lean/Gen/CSrc.lean (clang JSON AST -> Spq.CIR terms)
-        streams=dict(quick=[("kz_norm", "plain"), ("vz_norm", "plain"), ("cs_norm", "plain")], thorough=[("kz_norm", "plain"), ("vz_norm", "plain"), ("vz_box", "plain"), ("cs_norm", "plain"), ("cs_norm", "asan")]),
-        proved="digit/carry = balanced residue / exact quotient (all k in [1,62], |x|,|cin| <= 2^62, no wrap); per-coefficient chain = balancedDigits (existence, value identity, uniqueness); heap-level normalize_spec for all nn, k, limb counts incl. 0, strides, in place or disjoint, frame, bounds flag; big and range variants SOURCE TIE (Properties/SrcNorm.lean): the C source of znx_normalize (helpers inlined), translated on every run, is proved equal to the model function in its six pointer shapes for every nn, 1 <= k <= 63 and any aliasing of out/carry_out with in/carry_in.",
+        streams=dict(quick=[("kz_norm", "plain"), ("vz_norm", "plain"), ("cs_norm", "plain"), ("cs_vnorm", "plain")], thorough=[("kz_norm", "plain"), ("vz_norm", "plain"), ("vz_box", "plain"), ("cs_norm", "plain"), ("cs_norm", "asan"), ("cs_vnorm", "plain"), ("cs_vnorm", "asan")]),
+        proved="digit/carry = balanced residue / exact quotient (all k in [1,62], |x|,|cin| <= 2^62, no wrap); per-coefficient chain = balancedDigits (existence, value identity, uniqueness); heap-level normalize_spec for all nn, k, limb counts incl. 0, strides, in place or disjoint, frame, bounds flag; big and range variants SOURCE TIE (Properties/SrcNorm.lean): the C source of znx_normalize (helpers inlined), translated on every run, is proved equal to the model function in its six pointer shapes for every nn, 1 <= k <= 63 and any aliasing of out/carry_out with in/carry_in. WRAPPER (Properties/SrcVecNorm.lean): the C source of vec_znx_normalize_base2k_ref (early returns, pointer locals, signed downward loops calling the generated znx_normalize term with null / limb / scratch pointers, zero extension), translated on every run, simulates VecZnx.normalize on an arena: the final arena is the model heap except for the nn-cell scratch window (1 <= k <= 63, per-limb identical-or-disjoint windows, scratch disjoint from all limbs), no out-of-bounds access from the declared extents; vec_znx_normalize_base2k_tmp_bytes_ref = 8*nn.",
         not_proved="nothing of the statement is left unproved at model level; the 8 argument shapes of znx_normalize are one model function (the shapes differ only in what is stored) — tied by the kz_norm stream over all shapes and aliasing patterns",
         level_text="Lean 4 theorems: balanced base-2^k expansion (value, range, uniqueness) for every k, limb count and stride; model tied to the code by exhaustive small boxes and boundary carry chains, bit-exact",
         design_ref="DESIGN.md §5 C05",
@@ -115,11 +115,11 @@ PROPS = {
     "C07": dict(
         title="Accelerated kernels compute the same function as their reference kernels",
         module="SpqProofs.Properties.C07",
-        extra_modules=["SpqProofs.Properties.Cover"],
-        gen=["dispatch"],
-        streams=dict(quick=[("vz_box", "plain"), ("r4_layout", "plain"), ("r4_arith", "plain"), ("q1_prod", "plain"), ("ff_fft", "plain"), ("md_model", "plain"), ("md_prod", "plain"), ("md_vmp", "plain"), ("cv_rnx", "plain"), ("cv_cplxvec", "plain"), ("big_align", "plain")],
-                     thorough=[("vz_box", "plain"), ("r4_layout", "plain"), ("r4_arith", "plain"), ("q1_prod", "plain"), ("ff_fft", "plain"), ("md_model", "plain"), ("md_prod", "plain"), ("md_vmp", "plain"), ("cv_rnx", "plain"), ("cv_cplxvec", "plain"), ("big_align", "plain")]),
-        proved="Gen obligation: every kernel the live library installs (every constructor and module-table entry, 5 CPU masks, m = 2^0..2^16) belongs to its listed equivalence class; integer AVX loops (hand model Spq.CoeffsAvx, which no stream executes: the _avx kernels are streamed against the reference model) = reference model for every power-of-two dimension; family theorems imported: reim4/reim/cplx products ref = avx2/fma/sse/avx512 in exact arithmetic and layout kernels equal (C17), q120 AVX2 = reference word for word (theorems of C10/C04, which are obligations of those checks, not of this one)",
+        extra_modules=["SpqProofs.Properties.Cover", "SpqProofs.Properties.SrcAvx", "SpqProofs.Properties.SrcVecAvx"],
+        gen=["dispatch", "csrc"],
+        streams=dict(quick=[("vz_box", "plain"), ("r4_layout", "plain"), ("r4_arith", "plain"), ("q1_prod", "plain"), ("ff_fft", "plain"), ("md_model", "plain"), ("md_prod", "plain"), ("md_vmp", "plain"), ("cv_rnx", "plain"), ("cv_cplxvec", "plain"), ("big_align", "plain"), ("cs_avx", "plain"), ("cs_vavx", "plain")],
+                     thorough=[("vz_box", "plain"), ("r4_layout", "plain"), ("r4_arith", "plain"), ("q1_prod", "plain"), ("ff_fft", "plain"), ("md_model", "plain"), ("md_prod", "plain"), ("md_vmp", "plain"), ("cv_rnx", "plain"), ("cv_cplxvec", "plain"), ("big_align", "plain"), ("cs_avx", "plain"), ("cs_vavx", "plain")]),
+        proved="Gen obligation: every kernel the live library installs (every constructor and module-table entry, 5 CPU masks, m = 2^0..2^16) belongs to its listed equivalence class; SOURCE TIE (Properties/SrcAvx.lean, SrcVecAvx.lean): the C source of znx_add/sub/negate_i64_avx and of vec_znx_add/sub/negate_avx, translated on every run with the AVX2 intrinsics as 4x64 / 2x64 lane primitives, is proved equal to the model AND to the generated term of the reference kernel / wrapper for every nn the kernel accepts (nn = 1, 2 or a positive multiple of 4), any aliasing, no out-of-bounds access (streams cs_avx, cs_vavx validate translator + interpreter against the compiled code); the older hand model Spq.CoeffsAvx theorems (znx_*_avx_eq_ref) are kept; family theorems imported: reim4/reim/cplx products ref = avx2/fma/sse/avx512 in exact arithmetic and layout kernels equal (C17), q120 AVX2 = reference word for word (theorems of C10/C04, which are obligations of those checks, not of this one)",
         not_proved="float kernels of different variants differ by rounding: each variant is tied bit-exactly to its own model and to the exact-arithmetic definition, not to each other; AVX-512 FFT (cplx_fft_avx512) is not reached by any constructor on this dispatch table and is not modelled",
         level_text="kernel-decided dispatch-closure obligation on the table read back from the live library + Lean equivalence theorems per kernel family + pairwise bit-exact correspondence under both dispatch masks",
         design_ref="DESIGN.md §5 C07",
@@ -129,10 +129,10 @@ PROPS = {
         title="vec_znx size/stride semantics",
         module="SpqProofs.Properties.C08",
         variants={"plain": None, "asan": None},
-        extra_modules=["SpqProofs.Properties.SrcElem"],
+        extra_modules=["SpqProofs.Properties.SrcElem", "SpqProofs.Properties.SrcVec"],
         gen=["csrc"],   # tools/c2lean.py: spqlios/coeffs/coeffs_arithmetic.c -> lean/Gen/CSrc.lean (clang JSON AST -> Spq.CIR terms)
-        streams=dict(quick=[("vz_box", "plain"), ("cs_elem", "plain"), ("huge_span", "plain")], thorough=[("vz_box", "plain"), ("cs_elem", "plain"), ("cs_elem", "asan"), ("huge_span", "plain")]),
-        proved="value + frame + bounds-flag theorems for zero/copy/negate/add/sub/rotate/automorphism and the big wrappers, for all nn, limb counts incl. 0, strides >= nn, offsets, heap contents, aliased or disjoint sources; int64 zero-extension corollaries SOURCE TIE (Properties/SrcElem.lean): the C source of znx_add/sub/negate/copy/zero_i64_ref, translated on every run by tools/c2lean.py into a deep-embedded term, is proved equal to the model function for every nn and any aliasing, with no out-of-bounds access.",
+        streams=dict(quick=[("vz_box", "plain"), ("cs_elem", "plain"), ("huge_span", "plain"), ("cs_vec", "plain")], thorough=[("vz_box", "plain"), ("cs_elem", "plain"), ("cs_elem", "asan"), ("huge_span", "plain"), ("cs_vec", "plain"), ("cs_vec", "asan")]),
+        proved="value + frame + bounds-flag theorems for zero/copy/negate/add/sub/rotate/automorphism and the big wrappers, for all nn, limb counts incl. 0, strides >= nn, offsets, heap contents, aliased or disjoint sources; int64 zero-extension corollaries SOURCE TIE (Properties/SrcElem.lean): the C source of znx_add/sub/negate/copy/zero_i64_ref, translated on every run by tools/c2lean.py into a deep-embedded term, is proved equal to the model function for every nn and any aliasing, with no out-of-bounds access. WRAPPERS (Properties/SrcVec.lean): the C source of vec_znx_zero/copy/negate/add/sub/rotate/automorphism_ref (loops over limbs, per-limb pointer-equality tests selecting the in-place kernels, calls of the generated kernel terms with p + i*sl pointers, zero extension), translated on every run, is proved equal to the HEAP model VecZnx.* that the theorems of this file are about, on an arena with windows (offset, stride), for all nn, limb counts incl. 0 and strides, with no out-of-bounds access (composes with the *_no_fault / *_spec theorems above).",
         not_proved="AVX lane chunking is modelled as the same per-limb function (tied by the correspondence on the avx variants and the generic/AVX dispatch masks)",
         level_text="Lean 4 theorems over the heap model of vec_znx: value, frame and bounds for all sizes (incl. 0), strides, dimensions and contents; model tied to /repo by bit-exact whole-arena differential runs (canary padding, all size orderings, both module types and dispatch masks)",
         design_ref="DESIGN.md §5 C08",
@@ -141,10 +141,10 @@ PROPS = {
         title="Rotation, automorphism and (X^p-1) product are the ring maps for every p",
         module="SpqProofs.Properties.C09",
         variants={"plain": None, "asan": None},
-        extra_modules=["SpqProofs.Properties.SrcRot", "SpqProofs.Properties.Bridge"],
+        extra_modules=["SpqProofs.Properties.SrcRot", "SpqProofs.Properties.Bridge", "SpqProofs.Properties.SrcAutIn"],
         gen=["csrc"],   # tools/c2lean.py: spqlios/coeffs/coeffs_arithmetic.c -> lean/Gen/CSrc.lean (clang JSON AST -> Spq.CIR terms)
         streams=dict(quick=[("kz_probe", "plain"), ("kz_f64", "plain"), ("vz_box", "plain"), ("cs_rot", "plain")], thorough=[("kz_probe", "plain"), ("kz_f64", "plain"), ("vz_box", "plain"), ("md_prog", "plain"), ("cs_rot", "plain"), ("cs_rot", "asan")]),
-        proved="rotate/mulxp/automorphism (out of place) equal the closed coefficient formulas of X^p·a, X^p·a − a, a(X^p) for every nn, every p in Z (automorphism: nn = 2^t, odd p; result independent of prior output); in-place rotation and (X^p−1) equal the out-of-place maps for EVERY nn and p with the model's fuel proved sufficient; in-place automorphism equals the out-of-place one for every nn = 2^t (t ≤ 64: the C contract) and odd p, via (Z/2^t)^× = <−1>×<5>; composition laws (additive / multiplicative mod 2N) SOURCE TIE (Properties/SrcRot.lean): the C source of znx/rnx rotate, mul_xp_minus_one, automorphism (out of place) and of the in-place rotate / mul_xp_minus_one cycle walks, translated on every run, is proved equal to the model functions for nn = 2^t, every p (termination of the do-while walks proved).",
+        proved="rotate/mulxp/automorphism (out of place) equal the closed coefficient formulas of X^p·a, X^p·a − a, a(X^p) for every nn, every p in Z (automorphism: nn = 2^t, odd p; result independent of prior output); in-place rotation and (X^p−1) equal the out-of-place maps for EVERY nn and p with the model's fuel proved sufficient; in-place automorphism equals the out-of-place one for every nn = 2^t (t ≤ 64: the C contract) and odd p, via (Z/2^t)^× = <−1>×<5>; composition laws (additive / multiplicative mod 2N) SOURCE TIE (Properties/SrcRot.lean): the C source of znx/rnx rotate, mul_xp_minus_one, automorphism (out of place) and of the in-place rotate / mul_xp_minus_one cycle walks, translated on every run, is proved equal to the model functions for nn = 2^t, every p (termination of the do-while walks proved). Properties/SrcAutIn.lean: the C source of znx_automorphism_inplace_i64 / rnx_automorphism_inplace_f64 (the five-way per-level case split and paired orbit walks), translated on every run, equals Coeffs.automorphismInplace for nn = 2^t (t <= 62), odd p, with termination (fuel 3nn+64) and no out-of-bounds access: all 17 translated kernels now have a for-all theorem.",
         not_proved="the closed coefficient formulas of rotation / automorphism / X^p-1 are tied to Mathlib's AdjoinRoot (X^N+1) in Properties/Bridge.lean (an obligation of this check); double-precision variants are the same polymorphic definitions (tied by the probe stream on integer-valued doubles)",
         level_text="Lean 4 theorems for all N and all p, including the in-place cycle-leader walks (termination proved) and the 2-adic orbit structure of the in-place automorphism; exhaustive injective-probe correspondence with the real int64 and double kernels",
         design_ref="DESIGN.md §5 C09",
@@ -203,11 +203,11 @@ PROPS = {
         level_text="Lean 4 theorems on the bit-exact soft-float model (verified pack/decode theory: RNE, exactness, magic-constant additions, rint, quotient by 2^j) for every conversion and variant, all m, including the repaired wide double->int64 kernel (D7) on |x/d| < 2^52 and its exactness up to 2^63; bit-exact correspondence at and around every domain boundary",
         design_ref="DESIGN.md §5 C14",
         module="SpqProofs.Properties.C14",
-        extra_modules=["SpqProofs.Properties.Cover"],
+        extra_modules=["SpqProofs.Properties.Cover", "SpqProofs.Properties.C14Sel"],
         variants={"plain": None},
         streams=dict(quick=[("f6_conv", "plain"), ("cv_conv32", "plain")], thorough=[("f6_conv", "plain"), ("cv_conv32", "plain")]),
-        proved="on the bit-exact soft-float model, for every m (through the loop / shuffle structure of each kernel), every divisor 2^j with finite table constants and every input pattern in the stated magnitude domain: from_znx64 exact (cast and add-2^51/or/sub trick, |x|<2^50); to_znx64 ref (|x/d|<2^63) and bnd50 (|x/d|<2^50) within 1/2 of x/d; cplx_from_znx32 / cplx_from_tnx32 exact for every int32 (ref and AVX2 shuffle kernel); cplx_to_tnx32 ref and AVX2 = round(x*2^32/d) mod 2^32 for |x/d|<2^18; reim_to_tnx ref = avx bit-for-bit and x/d - integer within 2^(L-51), result in [-1/2,1/2), for every log2overhead L<=48 with the table recomputed by the model of the constructor; to_znx64_bnd63 / to_znx64_bnd63_wide: the repaired wide kernel (D7) within 1/2 of x/d for |x/d| < 2^52, ties included, and exact up to 2^63; the pre-repair kernel is kept as bnd63OffsetOld with its kernel-checked counterexample at x = pred(d/2); to_tnx_basic_ref_partial (rint form, exact x/d - n, under a no-underflow hypothesis)",
-        not_proved="Inf/NaN inputs are not modelled by Spq.F64 (excluded by the magnitude bounds or by explicit finiteness hypotheses); log2overhead 49..52 are outside the property; to_tnx_basic_ref below the underflow threshold of the quotient (error <= 2^-1075, inside the tolerance) is not covered (_partial); no selection theorem for init_reim_to_znx64_precomp (the (2m) % 4 = 0 hypothesis of the vector kernels is tied to the constructor by the C07 dispatch obligation and the streams); the reim int32 conversions are NOT_IMPLEMENTED stubs in the library (Cover.reim32_all_entry_points_abort)",
+        proved="on the bit-exact soft-float model, for every m (through the loop / shuffle structure of each kernel), every divisor 2^j with finite table constants and every input pattern in the stated magnitude domain: from_znx64 exact (cast and add-2^51/or/sub trick, |x|<2^50); to_znx64 ref (|x/d|<2^63) and bnd50 (|x/d|<2^50) within 1/2 of x/d; cplx_from_znx32 / cplx_from_tnx32 exact for every int32 (ref and AVX2 shuffle kernel); cplx_to_tnx32 ref and AVX2 = round(x*2^32/d) mod 2^32 for |x/d|<2^18; reim_to_tnx ref = avx bit-for-bit and x/d - integer within 2^(L-51), result in [-1/2,1/2), for every log2overhead L<=48 with the table recomputed by the model of the constructor; to_znx64_bnd63 / to_znx64_bnd63_wide: the repaired wide kernel (D7) within 1/2 of x/d for |x/d| < 2^52, ties included, and exact up to 2^63; the pre-repair kernel is kept as bnd63OffsetOld with its kernel-checked counterexample at x = pred(d/2); to_tnx_basic_ref_partial (rint form, exact x/d - n, under a no-underflow hypothesis) Properties/C14Sel.lean: to_znx64_selection (which kernel init_reim_to_znx64_precomp installs, from the model of the constructor validated by f6_conv) and to_znx64_dispatch (constructor + selected kernel within 1/2 of x/d in one statement; the (2m) % 4 = 0 side condition is derived).",
+        not_proved="Inf/NaN inputs are not modelled by Spq.F64 (excluded by the magnitude bounds or by explicit finiteness hypotheses); log2overhead 49..52 are outside the property; to_tnx_basic_ref below the underflow threshold of the quotient (error <= 2^-1075, inside the tolerance) is not covered (_partial); the reim int32 conversions are NOT_IMPLEMENTED stubs in the library (Cover.reim32_all_entry_points_abort)",
         assumptions=COMMON_ASSUME + ["divisor/2., 1./divisor and 2^32/divisor are compiled as IEEE divisions or exact multiplications (bit-identical for powers of two)"],
     ),
     "C15": dict(
@@ -226,10 +226,10 @@ PROPS = {
     "C13": dict(
         title="Supported in-place calls give the same result as out-of-place calls",
         module="SpqProofs.Properties.C13",
-        extra_modules=["SpqProofs.Properties.ModHeap", "SpqProofs.Properties.C05"],
+        extra_modules=["SpqProofs.Properties.ModHeap", "SpqProofs.Properties.C05", "SpqProofs.Properties.C13Ok"],
         streams=dict(quick=[("vz_box", "plain"), ("kz_probe", "plain"), ("vz_norm", "plain"), ("md_prod", "plain"), ("alias_mul", "plain"), ("md_prog", "plain"), ("md_ntt", "plain"), ("mn_model", "plain"), ("mh_arena", "plain")],
                      thorough=[("vz_box", "plain"), ("kz_probe", "plain"), ("vz_norm", "plain"), ("md_prod", "plain"), ("alias_mul", "plain"), ("md_prog", "plain"), ("md_ntt", "plain"), ("mn_model", "plain"), ("mh_arena", "plain")]),
-        proved="call-independence theorems: an aliased call (res==a or res==b, same stride) and a call with separate buffers on the same source data give identical output cells, for add/sub/copy/negate/rotate/automorphism and the big variants, all limb counts (res_size != aliased size included) MODULE LAYER (Properties/ModHeap.lean): vec_znx_idft in place (res == a_dft) = out of place for every (res_size, a_size), any module configuration (vec_znx_idft_inplace_eq_outofplace); znx_small_single_product tolerates res overlapping a and b. Normalization in place (res == a, same stride): C05.normalize_spec (an obligation of this check too) accepts a = res and gives the same digits and frame as the out-of-place call, under the C05 magnitude domain (|a| <= 2^62, 1 <= k <= 62).",
+        proved="call-independence theorems: an aliased call (res==a or res==b, same stride) and a call with separate buffers on the same source data give identical output cells, for add/sub/copy/negate/rotate/automorphism and the big variants, all limb counts (res_size != aliased size included) MODULE LAYER (Properties/ModHeap.lean): vec_znx_idft in place (res == a_dft) = out of place for every (res_size, a_size), any module configuration (vec_znx_idft_inplace_eq_outofplace); znx_small_single_product tolerates res overlapping a and b. Normalization in place (res == a, same stride): C05.normalize_spec (an obligation of this check too) accepts a = res and gives the same digits and frame as the out-of-place call, under the C05 magnitude domain (|a| <= 2^62, 1 <= k <= 62). Properties/C13Ok.lean: the same call-independence theorems including the ok flag (both the aliased and the separate-buffer call are fault-free under the C08 in-bounds hypotheses) for add/sub/copy/negate/rotate/automorphism and the big variants.",
         not_proved="pointwise products with r==a / r==b at kernel level are covered by the alias_mul stream (bit-exact), not by a theorem (the functional kernel models have no aliasing)",
         level_text="Lean 4 theorems: aliased call = separate-buffer call on identical data for every shape; in-place kernels tied to the real code by the exhaustive probe stream",
         design_ref="DESIGN.md §5 C13",
@@ -237,11 +237,11 @@ PROPS = {
     "C16": dict(
         title="Pipelines of API calls compute the corresponding expression in Z[X]/(X^N+1)",
         module="SpqProofs.Properties.C16",
-        extra_modules=["SpqProofs.Properties.Closed", "SpqProofs.Properties.C16Err", "SpqProofs.Properties.Bridge", "SpqProofs.Properties.ErrWitness"],
+        extra_modules=["SpqProofs.Properties.Closed", "SpqProofs.Properties.C16Err", "SpqProofs.Properties.Bridge", "SpqProofs.Properties.ErrWitness", "SpqProofs.Properties.BridgeFft", "SpqProofs.Properties.C16Err2"],
         streams=dict(quick=[("md_prog", "plain"), ("vz_box", "plain"), ("ff_tables", "plain")],
                      thorough=[("md_prog", "plain"), ("vz_box", "plain"), ("ff_tables", "plain")]),
-        proved="coefficient-space fragment, complete: for every layout (N = 2^t, strides >= N, pairwise disjoint variables inside one int64 heap), every straight-line program of add/sub/negate/copy/rotate/automorphism/normalize calls (any length, destination equal to a source or not, any limb counts incl. 0) and every input, if the exact interpreter stays in budget (every stored coefficient fits int64; |normalize input| <= 2^62, k in [1,62]; odd automorphism index) then the heap after running the model of vec_znx.c holds, limb by limb, the exact expression in Z[X]/(X^N+1) (pointwise +-, X^p*a, a(X^p) = sum a_i X^(ip), balanced base-2^k digits), all other cells (padding, other variables) are unchanged and no access was out of bounds (coeff_prog_refines, coeff_prog_output; per-call *_sim derived from the C08/C09/C05 specs). Mixed programs (dft, svp_prepare/apply, vmp_prepare/apply, idft, small product on a second store of opaque objects): prog_refines_partial proves the refinement for every module and every program relative to the record DftOpsSound of per-function exactness facts (dft_exact, svp_exact, vmp_exact, dft_idft_exact, small_product_exact = the C01/C02 theorems) - heap reads with strides, stores, frames, interplay with coefficient-space calls and validity of opaque objects as inputs of later calls are proved; DftOpsSound is shown inhabited (identity-transform module) BINARY64 (Properties/C16Err.lean): the program interpreter run with the binary64 module instance Cfg.parts produces exactly the integer limbs of the exact interpreter for every well-typed program (all ten ops incl. vmp_apply_dft_to_dft) whose DFT-space steps satisfy their per-operation budget (round trip dft->idft: 17 log2(N) u |a|_2 < 1/2; svp / small product: C01Err budget; vmp: C02Err budget) and whose vmp_apply_dft_to_dft reads a raw dft output (SingleProductDepth, decidable): prog_refines_f64_partial, prog_output_f64_partial, dftOpsSound_f64 (DftOpsSound instantiated for the library module), f64_agrees_with_exact_network_partial. The stream md_prog now also sends every program to the Lean program model (driver family pg) and compares the final heap and every DFT variable bit for bit. NON-VACUITY (Properties/ErrWitness.lean): at N = 8 (m = 4, K = R, zeta = exp(i pi/8)) with the library's ACTUAL stored twiddle patterns and the configuration it installs on this host, every hypothesis of the binary64 rounding theorems (CfgOk, 3.5u accuracy of both tables proved from rational enclosures of cos/sin(pi/8), flags by evaluation, budget) is discharged on concrete integer inputs and the conclusions are evaluated (witness_reim_fft_err_k2, witness_small_product_exact_k2, witness_vmp_exact_k2, witness_roundtrip_exact_k2).",
-        not_proved="DftOpsSound is instantiated for the real FFT network in exact arithmetic (Closed: dftOpsSound_network, prog_refines_closed, incl. products of products) and for the library binary64 module (C16Err: dftOpsSound_f64). What remains for binary64: the per-operation budgets carry the proved constants (12 / 17 instead of the property 8 / 16), twiddle accuracy and the underflow side condition are hypotheses, and vmp_apply_dft_to_dft applied to the OUTPUT of svp/vmp (product of products) is outside SingleProductDepth (needs error propagation through a second product). NTT120 big-coefficient programs (int128 limbs) are not in the program model (module-level theorems in C03Mod; md_prog stream). Properties/Bridge.lean (an obligation of this check) ties the rotation/automorphism formulas and the NTT-side product formula Q120Ntt.nmul to Mathlib AdjoinRoot (X^N+1); the FFT-side product formula Spq.nmul used by C01/C02/Closed is tied to Prog.polyMul only (same textbook sum, not yet restated over AdjoinRoot)",
+        proved="coefficient-space fragment, complete: for every layout (N = 2^t, strides >= N, pairwise disjoint variables inside one int64 heap), every straight-line program of add/sub/negate/copy/rotate/automorphism/normalize calls (any length, destination equal to a source or not, any limb counts incl. 0) and every input, if the exact interpreter stays in budget (every stored coefficient fits int64; |normalize input| <= 2^62, k in [1,62]; odd automorphism index) then the heap after running the model of vec_znx.c holds, limb by limb, the exact expression in Z[X]/(X^N+1) (pointwise +-, X^p*a, a(X^p) = sum a_i X^(ip), balanced base-2^k digits), all other cells (padding, other variables) are unchanged and no access was out of bounds (coeff_prog_refines, coeff_prog_output; per-call *_sim derived from the C08/C09/C05 specs). Mixed programs (dft, svp_prepare/apply, vmp_prepare/apply, idft, small product on a second store of opaque objects): prog_refines_partial proves the refinement for every module and every program relative to the record DftOpsSound of per-function exactness facts (dft_exact, svp_exact, vmp_exact, dft_idft_exact, small_product_exact = the C01/C02 theorems) - heap reads with strides, stores, frames, interplay with coefficient-space calls and validity of opaque objects as inputs of later calls are proved; DftOpsSound is shown inhabited (identity-transform module) BINARY64 (Properties/C16Err.lean): the program interpreter run with the binary64 module instance Cfg.parts produces exactly the integer limbs of the exact interpreter for every well-typed program (all ten ops incl. vmp_apply_dft_to_dft) whose DFT-space steps satisfy their per-operation budget (round trip dft->idft: 17 log2(N) u |a|_2 < 1/2; svp / small product: C01Err budget; vmp: C02Err budget) and whose vmp_apply_dft_to_dft reads a raw dft output (SingleProductDepth, decidable): prog_refines_f64_partial, prog_output_f64_partial, dftOpsSound_f64 (DftOpsSound instantiated for the library module), f64_agrees_with_exact_network_partial. The stream md_prog now also sends every program to the Lean program model (driver family pg) and compares the final heap and every DFT variable bit for bit. NON-VACUITY (Properties/ErrWitness.lean): at N = 8 (m = 4, K = R, zeta = exp(i pi/8)) with the library's ACTUAL stored twiddle patterns and the configuration it installs on this host, every hypothesis of the binary64 rounding theorems (CfgOk, 3.5u accuracy of both tables proved from rational enclosures of cos/sin(pi/8), flags by evaluation, budget) is discharged on concrete integer inputs and the conclusions are evaluated (witness_reim_fft_err_k2, witness_small_product_exact_k2, witness_vmp_exact_k2, witness_roundtrip_exact_k2). Properties/C16Err2.lean removes the SingleProductDepth restriction: with a metric invariant (per-limb 2-norm distance delta of a DFT variable from the exact transform, propagated through svp / vmp / vmp_apply_dft_to_dft by explicit formulas) prog_refines_f64_metric_partial / prog_output_f64_metric_partial hold for EVERY OpD program, product chains of any depth (example: dft -> svp -> vmp_apply_dft_to_dft -> idft).",
+        not_proved="DftOpsSound is instantiated for the real FFT network in exact arithmetic (Closed: dftOpsSound_network, prog_refines_closed, incl. products of products) and for the library binary64 module (C16Err: dftOpsSound_f64). What remains for binary64: the per-operation budgets carry the proved constants (12 / 17 instead of the property 8 / 16), twiddle accuracy and the underflow side condition are hypotheses, the per-operation flags of a product fed into a product (C16Err2) are stated on the concrete binary64 operand. NTT120 big-coefficient programs (int128 limbs) are not in the program model (module-level theorems in C03Mod; md_prog stream). Properties/Bridge.lean (an obligation of this check) ties the rotation/automorphism formulas and the NTT-side product formula Q120Ntt.nmul to Mathlib AdjoinRoot (X^N+1); Properties/BridgeFft.lean does the same for the FFT-side formulas Spq.nmul / isum / Prog.polyMul / vmpVal used by C01/C02/Closed/C16",
         level_text="Lean 4 refinement theorem (simulation by induction on the program) for the whole coefficient-space fragment over the heap model of vec_znx.c; DFT-space extension proved relative to an explicit record of per-function exactness hypotheses; random well-typed programs over the real library (both dispatch masks, aliasing, shapes) checked against an independent 128-bit exact interpreter",
         design_ref="DESIGN.md §5 C16",
         technique="Lean 4 proof (generic simulation theorem + per-call lemmas from C08/C09/C05 specifications) + differential program-level correspondence",
